@@ -169,6 +169,15 @@ def contributions(func: Func) -> list[Sink]:
     def strip_encode(a: ast.expr) -> ast.expr:
         if isinstance(a, ast.Call) and isinstance(a.func, ast.Attribute) and a.func.attr == "encode":
             return a.func.value
+        if isinstance(a, ast.BinOp) and isinstance(a.op, ast.Add):  # bytes concatenation of encoded pieces
+            return ast.copy_location(ast.BinOp(left=strip_encode(a.left), op=ast.Add(), right=strip_encode(a.right)), a)
+        if isinstance(a, ast.Constant) and isinstance(a.value, bytes):
+            try:
+                return ast.copy_location(ast.Constant(value=a.value.decode("utf-8")), a)
+            except UnicodeDecodeError:
+                return a
+        if isinstance(a, ast.Name) and a.id in alias and strip_encode(alias[a.id]) is not alias[a.id]:
+            return strip_encode(alias[a.id])
         return a
 
     def walk(stmts: list[ast.stmt], top: bool) -> None:
